@@ -1,7 +1,7 @@
 // Package c17: "Every network operation is bounded by the configured timeout".  A server that holds the connection
 // open silently at every position of the dial / dial-and-send / dial+send+reset+close dialogues (script decision
 // stall), in the middle of an AUTH exchange (replies muted from the k-th server write on) and inside the TLS handshake,
-// for each TLS mode and auth mechanism class, with WithTimeout(250 ms).  Observable compared with the model: result
+// for each TLS mode and auth mechanism class, with WithTimeout(dialx.StallTimeout = 600 ms).  Observable compared with the model: result
 // classes, per-read "a deadline was set" (from the SetDeadline calls in the tracked connection's operation log), the
 // server's log.  Direct oracle: every public call returns within max(20 x timeout, 5 s).
 package c17
